@@ -80,6 +80,16 @@ Theorem C22_general_podnode_always : forall w ops sched w' ts' tr,
 Proof. exact podnode_always. Qed.
 Print Assumptions C22_general_podnode_always.
 
+(* ... and no reachable state is a deadlock: some operation can take a step
+   until all have finished (each operation holds at most one pod lock and never
+   waits while holding it).  Nothing is claimed after the overlap. *)
+Theorem C22_general_no_deadlock : forall w ops sched w' ts' tr,
+  ref_ok w = true -> NoDup (node_names w) -> held w = [] ->
+  run_sched w (mk_threads (map (fun o => (rop_of o, None)) ops)) sched [] = (w', ts', tr) ->
+  window_addnode_removepod tr = true \/ forallb finished ts' = true \/ enabled_steps w' ts' <> [].
+Proof. exact podnode_no_deadlock. Qed.
+Print Assumptions C22_general_no_deadlock.
+
 (* PARTIAL 1 (bounded universe, all schedules): for every world of u_worlds
    (empty; pod; pod+node; pod+node+workload; two pods with a node each), every
    ordered pair of operations of u_ops (add-pod, remove-pod, add-node x2,
